@@ -29,6 +29,10 @@ class SendFailed(Exception):
     pass
 
 
+class TaskBase(BaseException):
+    pass
+
+
 class Grpc:
     def __init__(self, channel):
         self.channel = channel
@@ -76,6 +80,7 @@ class C09(Prop):
             'outcomes': st.lists(outcome, min_size=1, max_size=5),
             'release_before_flush': st.integers(0, 5),
             'order': st.lists(st.integers(0, 10), min_size=5, max_size=5),
+            'base_failures': st.sampled_from([0, 0, 1, 2, 3]),
         })
         # a backlog: many snapshots handed over while no worker makes progress (a collector that is slow or down)
         burst = fd({
@@ -290,6 +295,20 @@ class C09(Prop):
         out.cls('real_threads')
         out.nontrivial = True
         th, ps, channel, outcomes, sent, gates = self._world()
+        # earlier tasks that failed with a BaseException (the agent's own IllegalStateException is one): a failure is
+        # contained where it happens, the workers go on delivering
+        import concurrent.futures as _cf
+
+        def failing():
+            raise TaskBase('task failed with a BaseException')
+        for _ in range(recipe.get('base_failures') or 0):
+            out.cls('worker_saw_base_exception')
+            try:
+                fut = th.submit_task(failing)
+            except BaseException as e:      # noqa
+                out.violate('submit_task raised %s' % type(e).__name__)
+                return out
+            _cf.wait([fut], timeout=5)
         snaps = []
         for o in recipe['outcomes']:
             s = mk_snapshot()
